@@ -26,11 +26,26 @@ std::string ExecImpl::describe_exp(int id) const {
 // ---------------- mocks ----------------
 void ExecImpl::op_new_mock(const Op& op) {
   if (static_cast<int>(M.live_mocks().size()) >= MAX_MOCKS) return;
-  MMock m; m.id = static_cast<int>(M.mocks.size()); m.kind = ((op.a[0] % 2) + 2) % 2;
+  int k3 = ((op.a[0] % 3) + 3) % 3;
+  // kind 2: an ordinary mock that is also deathwatched (trompeloeil::deathwatched<MockT<false>>)
+  const bool dw = k3 == 2 && static_cast<int>(M.live_watched().size()) < max_watched();
+  MMock m; m.id = static_cast<int>(M.mocks.size()); m.kind = k3 == 1 ? 1 : 0;
+  if (dw) {
+    MWatched w; w.id = static_cast<int>(M.watched.size()); w.kind = 1; w.mock = m.id;
+    m.watched = w.id;
+    M.watched.push_back(w);
+  }
   M.mocks.push_back(m);
   if (!shadow) {
     RMock r; r.kind = m.kind;
-    if (m.kind == 0) r.a = new MockT<false>(); else r.m = new MockT<true>();
+    if (dw) {
+      auto* p = new trompeloeil::deathwatched<MockT<false>>();
+      r.a = p;
+      rwatched.resize(M.watched.size(), nullptr);
+      rwatched_mock.resize(M.watched.size(), nullptr);
+      rwatched_mock[static_cast<size_t>(m.watched)] = p;
+    }
+    else if (m.kind == 0) r.a = new MockT<false>(); else r.m = new MockT<true>();
     rmocks.push_back(r);
   }
 }
@@ -38,9 +53,44 @@ void ExecImpl::op_new_mock(const Op& op) {
 void ExecImpl::op_destroy_mock(const Op& op) {
   int id = pick(M.live_mocks(), op.a[0]);
   if (id < 0 || busy_mocks.count(id)) return;
-  MMock& m = M.mocks[id];
-  if (m.moved_to) ctx_moved_mock = true;
+  // while a dying expectation reports, it is still registered in its sequences: whether a requirement on a watched mock
+  // is then "next in line" is fixed by no property, so the reporter does not destroy watched mocks
+  if (M.mocks[id].watched >= 0) { if (!in_reporter_op) destroy_watched_mock(id); return; }
+  if (M.mocks[id].moved_to) ctx_moved_mock = true;
   std::vector<XRep> want;
+  mock_death_model(id, want);
+  nontriv("C04"); nontriv("C14");
+  if (shadow) return;
+  Obs o; obs_stack.push_back(&o);
+  RMock& r = rmocks[id];
+  delete r.a; delete r.m; r.a = nullptr; r.m = nullptr;
+  obs_stack.pop_back();
+  check_reports(o, want, true, "destroy_mock", "C04,C15");
+  check_no_ok(o, "destroy_mock");
+}
+
+// a mock that is also deathwatched dies: first what ~deathwatched has to say (C13), then the mock's own end (C04)
+void ExecImpl::destroy_watched_mock(int id) {
+  const int wid = M.mocks[id].watched;
+  std::vector<XRep> want;
+  watched_death_model(wid, want);
+  mock_death_model(id, want);
+  M.mocks[id].watched = -1;
+  nontriv("C04"); nontriv("C13"); nontriv("C14");
+  ++st.p_watched_mock_death;
+  if (shadow) return;
+  Obs o; obs_stack.push_back(&o);
+  RMock& r = rmocks[id];
+  delete r.a; r.a = nullptr;
+  rwatched_mock[static_cast<size_t>(wid)] = nullptr;
+  obs_stack.pop_back();
+  check_reports(o, want, true, "destruction of a watched mock object", "C13,C04,C15,C05");
+  check_no_ok(o, "destroy_watched_mock");
+}
+
+// the model side of a mock object's end; returns whether anything still depended on it
+bool ExecImpl::mock_death_model(int id, std::vector<XRep>& want) {
+  MMock& m = M.mocks[id];
   bool had_dependants = false;
   for (int f = 0; f < NFN; ++f) {
     for (int pass = 0; pass < 2; ++pass) {
@@ -65,14 +115,7 @@ void ExecImpl::op_destroy_mock(const Op& op) {
   }
   m.alive = false;
   if (had_dependants) ++st.f_owner_death;
-  nontriv("C04"); nontriv("C14");
-  if (shadow) return;
-  Obs o; obs_stack.push_back(&o);
-  RMock& r = rmocks[id];
-  delete r.a; delete r.m; r.a = nullptr; r.m = nullptr;
-  obs_stack.pop_back();
-  check_reports(o, want, true, "destroy_mock", "C04,C15");
-  check_no_ok(o, "destroy_mock");
+  return had_dependants;
 }
 
 void ExecImpl::op_move_mock(const Op& op) {
